@@ -53,8 +53,8 @@ class C17(PropertyCheck):
         return ("scripts = preset dataset (sorted sets with tied/fractional/infinite scores, other types, emptied sets, deadlines) "
                 "+ sorted-set commands + final ZRANGE -inf +inf WITHSCORES / ZCARD per key + digest; streams: exhaustive small scope, "
                 "random histories over 3 keys, malformed (arity, non-numbers, unknown options), multi-key streams (algebra with "
-                "weights/aggregates, ZMPOP, and ZRANDMEMBER; a script containing ZRANDMEMBER is judged by the reference alone, "
-                "which validates the drawn members), alias probes (STORE then write then re-read every source). "
+                "weights/aggregates, ZMPOP, and ZRANDMEMBER: compared with the model up to the random selection (shape of the reply, "
+                "whole-set replies as multisets) and judged by the reference, which validates the drawn members), alias probes (STORE then write then re-read every source). "
                 "distinct = distinct canonical script text; non-trivial = at least one successful sorted-set write")
 
     def nontrivial(self, script, impl_lines):
@@ -68,8 +68,10 @@ class C17(PropertyCheck):
 
     # ---- model/implementation comparison: only for scripts made of modelled commands
     def evaluate(self, scripts):
+        # ZRANDMEMBER is modelled (Model/CmdZRand.v): scripts containing it are compared with the model like all others;
+        # common.compare_lines keeps only the shape of a ZRANDMEMBER reply that is a random selection (the whole-set
+        # replies are compared as multisets), and the reference below validates the drawn members.
         impl, model, div, rej = super().evaluate(scripts)
-        div = [(s, d) for s, d in div if not getattr(s, "ref_only", False)]
         # a trace rejected by the documented reading but accepted with the pinned behaviours adopted lies inside a known finding
         if rej:
             todo = []
